@@ -229,7 +229,18 @@ def gen_cases(rng, tier, h):
     return cases
 
 
+def _threaded(rng, c):
+    """the same history spread over three worker threads (every operation still strictly after the previous one)"""
+    return [l if l.split()[0] == "mt" else "on %d %s" % (rng.randrange(3), l) for l in c]
+
+
 def _gen_all(rng, tier, h):
+    quick = tier == "quick"
+    cases = _gen_all0(rng, tier, h)
+    return [(_threaded(rng, c) if rng.chance(0.3) else c) for c in cases]
+
+
+def _gen_all0(rng, tier, h):
     quick = tier == "quick"
     cases = []
     if h.get("kind") == "tsan":
@@ -244,6 +255,7 @@ def _gen_all(rng, tier, h):
 
 
 def nontrivial(case):
+    case = [" ".join(l.split()[2:]) if l.startswith("on ") else l for l in case]
     ops = [l.split()[0] for l in case]
     if "mt" in ops:
         return any(int(l.split()[1]) >= 2 for l in case if l.startswith("mt "))
